@@ -57,6 +57,24 @@ Fixpoint join (sep : string) (l : list string) : string :=
   | x :: r => x ++ sep ++ join sep r
   end.
 
+(* escapeTableCell: '|' -> "\|", CR LF / LF / CR -> "<br>" *)
+Definition pipe : ascii := "|"%char.
+Definition lf : ascii := ascii_of_nat 10.
+Definition cr : ascii := ascii_of_nat 13.
+Fixpoint esc_cell (s : string) : string :=
+  match s with
+  | EmptyString => EmptyString
+  | String c r =>
+      if Ascii.eqb c pipe then String "\"%char (String pipe (esc_cell r))
+      else if Ascii.eqb c cr then
+        "<br>" ++ match r with
+                  | String c2 r2 => if Ascii.eqb c2 lf then esc_cell r2 else esc_cell r
+                  | EmptyString => EmptyString
+                  end
+      else if Ascii.eqb c lf then "<br>" ++ esc_cell r
+      else String c (esc_cell r)
+  end.
+
 (* ---------------------------------------------------------------- the network tree *)
 
 Record sigtype := { st_id : N; st_name : string; st_desc : string; st_size : Z; st_kind : string;
@@ -88,6 +106,10 @@ Inductive block :=
 | Table (header : list string) (rows : list (list string))
 | Rule
 | Bullet (text : string).
+
+(* mdExporter.writeTable: the cells of the rows (not of the header) are escaped *)
+Definition mk_table (header : list string) (rows : list (list string)) : block :=
+  Table header (map (map esc_cell) rows).
 
 Inductive result (A : Type) := Ok (a : A) | Err.
 Arguments Ok {A} a.
@@ -244,7 +266,7 @@ Definition msg_blocks (m : msg) : list block :=
        Para ("Receivers: " ++ join ", " (map header_link (m_receivers m)))]
    ++ match m_sigs m with
       | [] => []
-      | _ => [Table sig_header (rows_sigs 0 (m_sigs m))]
+      | _ => [mk_table sig_header (rows_sigs 0 (m_sigs m))]
       end)%list.
 
 Definition nif_blocks (x : nif) : list block :=
@@ -285,13 +307,13 @@ Definition value_row (v : enumval) : list string :=
 
 Definition enum_blocks (e : sigenum) : list block :=
   ([Rule; H 4 (se_name e)] ++ desc_blocks (se_desc e)
-   ++ [Table value_header (map value_row (se_values e))])%list.
+   ++ [mk_table value_header (map value_row (se_values e))])%list.
 
 Definition appendix_blocks (n : net) : list block :=
   ([H 2 "Signal Types"; Para "The list of all the signal types used in the network.";
-    Table type_header (map type_row (types_listed n));
+    mk_table type_header (map type_row (types_listed n));
     H 2 "Signal Units"; Para "The list of all the signal units used in the network.";
-    Table unit_header (map unit_row (units_listed n));
+    mk_table unit_header (map unit_row (units_listed n));
     H 2 "Signal Enums"; Para "The list of all the signal enums used in the network."]
    ++ flat_map enum_blocks (enums_listed n))%list.
 
